@@ -96,7 +96,12 @@ func newEnv(idx string, confErr error) (*env, error) {
 		return nil, err
 	}
 	e.st = st
-	vsched.SetGate("stub.connClosed", func() {
+	vsched.SetGate("stub.connClosed", func(obj any) {
+		// the gate is process-global: notifications of stubs of earlier environments (still winding
+		// down) must pass straight through
+		if obj != any(e.st) {
+			return
+		}
 		e.gateMu.Lock()
 		if !e.gating {
 			e.gateMu.Unlock()
